@@ -231,7 +231,7 @@ pub fn run(ctx: &mut Ctx) {
     }
 }
 
-fn all_leaves() -> Vec<DataType> {
+pub fn all_leaves() -> Vec<DataType> {
     use DataType as T; use marrow::datatypes::TimeUnit as U;
     vec![T::Null, T::Boolean, T::Int8, T::Int16, T::Int32, T::Int64, T::UInt8, T::UInt16, T::UInt32, T::UInt64, T::Float32, T::Float64,
          T::Date32, T::Date64, T::Time32(U::Second), T::Time32(U::Millisecond), T::Time64(U::Microsecond), T::Time64(U::Nanosecond),
@@ -242,7 +242,7 @@ fn all_leaves() -> Vec<DataType> {
          T::Dictionary(Box::new(T::Int8), Box::new(T::Utf8)), T::Dictionary(Box::new(T::UInt32), Box::new(T::LargeUtf8))]
 }
 
-fn under_parent(parent: usize, leaf: &DataType, nullable: bool) -> Option<(Field, Vec<usize>)> {
+pub fn under_parent(parent: usize, leaf: &DataType, nullable: bool) -> Option<(Field, Vec<usize>)> {
     use DataType as T;
     let mk = |n: &str, dt: DataType, nl: bool| Field { name: n.into(), data_type: dt, nullable: nl, metadata: Default::default() };
     let nl = nullable || matches!(leaf, T::Null);
